@@ -14,10 +14,10 @@ EXTENDS Api
 
 Trace == ndJsonDeserialize(IOEnv.VERIF_TRACE)
 
-VARIABLES l, cur, ndev, deep, rej, objin
-traceVars == <<l, cur, ndev, deep, rej, objin, used, cfg, ncalls>>
+VARIABLES l, cur, ndev, deep, rej, objin, spans
+traceVars == <<l, cur, ndev, deep, rej, objin, spans, used, cfg, ncalls>>
 
-TraceInit == TLCSet(1, <<>>) /\ ApiInit /\ l = 1 /\ cur = [vals |-> <<>>, prop |-> ""] /\ ndev = 0 /\ deep = <<>> /\ rej = <<>> /\ objin = <<>>
+TraceInit == TLCSet(1, <<>>) /\ ApiInit /\ l = 1 /\ cur = [vals |-> <<>>, prop |-> ""] /\ ndev = 0 /\ deep = <<>> /\ rej = <<>> /\ objin = <<>> /\ spans = <<>>
 
 Line == Trace[l]
 IsEvent(e) == l <= Len(Trace) /\ Line.ev = e
@@ -30,7 +30,7 @@ DeepKey(ty, pattern) == ty \o "/" \o pattern
 DeepTrack(ty, pattern) ==
   IF DeepKey(ty, pattern) \in DOMAIN deep THEN deep[DeepKey(ty, pattern)] ELSE [maxok |-> 0, minrej |-> -1]
 
-CallEvents == {"Size", "Encode", "Decode", "Deep", "Reject", "Legacy", "Allocs", "Par", "Walk", "Recheck"}
+CallEvents == {"Size", "Encode", "Decode", "Deep", "Reject", "Legacy", "Allocs", "Par", "Walk", "Recheck", "Hooks"}
 
 \* rejected calls seen so far in the whole trace: (type, entry, argument kind) -> outcome
 RejKey == Line.ty \o "/" \o Line.entry \o "/" \o Line.arg
@@ -59,6 +59,7 @@ Judge ==
                                            THEN FailRoundTrip(Line.ty, cur.vals[Line.orig + 1], Line.in, Line.obs)
                                            ELSE {})])
     [] Line.ev = "Deep" -> JDeep(Line, DeepTrack(Line.ty, Line.pattern))
+    [] Line.ev = "Hooks" -> JHooks(Line, spans)
     [] Line.ev = "Walk" -> JWalk(Line, objin)
     [] Line.ev = "Recheck" -> JRecheck(Line)
     [] Line.ev = "Par" -> JPar(Line)
@@ -99,7 +100,7 @@ TraceScenario ==
   /\ l' = l + 1
   /\ deep' = <<>>      \* thresholds are tracked per scenario
   /\ objin' = <<>>
-  /\ UNCHANGED <<ndev, rej, used, cfg, ncalls>>
+  /\ UNCHANGED <<ndev, rej, spans, used, cfg, ncalls>>
 
 \* a call whose observed outcome the specification allows
 TraceCall ==
@@ -115,10 +116,11 @@ TraceCall ==
                   IN (DeepKey(Line.ty, Line.pattern) :> nt) @@ deep
   /\ LET j == Judge
          v == j.fail IN
+     /\ spans' = IF Line.ev = "Hooks" /\ "sp" \in DOMAIN j THEN j.sp ELSE spans
      /\ IF v = {} THEN ndev' = ndev ELSE Report(v) /\ ndev' = ndev + 1
      /\ Count(j.cls)
      /\ IF Line.ev = "Legacy" THEN LegacyCall(Line.call)
-        ELSE IF Line.ev \in {"Par", "Walk", "Recheck"} THEN UNCHANGED apiVars
+        ELSE IF Line.ev \in {"Par", "Walk", "Recheck", "Hooks"} THEN UNCHANGED apiVars
         ELSE Call(Line.ty)
   /\ l' = l + 1
   /\ UNCHANGED cur
@@ -127,7 +129,7 @@ TraceCall ==
 TraceOther ==
   /\ l <= Len(Trace) /\ Line.ev \notin CallEvents \cup {"Scenario"}
   /\ l' = l + 1
-  /\ UNCHANGED <<cur, ndev, deep, rej, objin, used, cfg, ncalls>>
+  /\ UNCHANGED <<cur, ndev, deep, rej, objin, spans, used, cfg, ncalls>>
 
 TraceNext == TraceScenario \/ TraceCall \/ TraceOther
 
